@@ -230,8 +230,18 @@ func c16GenStream(rng *rand.Rand) []byte {
 			b.WriteByte(0xAC) // empty message
 		}
 	}
-	return b.Bytes()
+	// A message may itself contain the delimiter byte (0xAC, also as the second
+	// byte of some UTF-8 characters): the client cuts there. No piece may end in
+	// an incomplete escape sequence, or it would combine with the start of the
+	// next piece in the uncoloured stream only (see DESIGN.md §9).
+	pieces := bytes.Split(b.Bytes(), []byte{0xAC})
+	for i, p := range pieces {
+		pieces[i] = c16PartialEscAtEnd.ReplaceAll(p, nil)
+	}
+	return bytes.Join(pieces, []byte{0xAC})
 }
+
+var c16PartialEscAtEnd = regexp.MustCompile(`\x1b(\[[0-9;]*)?$`)
 
 func c16(r *vlib.Run) int {
 	r.Rule("messages: prefixes REMOTE/CLIENT/SERVER/AGGREGATE (and look-alikes) with 0..8 fields drawn from a pool (empty, " +
